@@ -737,8 +737,16 @@ func (c *cutter) doHuffman(isFirstBlock bool, lLengths []uint32, dLengths []uint
 			decodedLen += length
 
 		} else {
-			// It's the end-of-block.
-			return nil
+			// It's the end-of-block. If it directly follows a checkpoint then
+			// the budget check below has already left room for it. If it is
+			// the block's first symbol (an empty block), nothing has checked
+			// that it fits in maxEncodedLen.
+			encodedBits := 8*uint64(c.bits.index) - uint64(c.bits.nBits)
+			maxEncodedBits := 8 * uint64(c.maxEncodedLen)
+			if encodedBits <= maxEncodedBits {
+				return nil
+			}
+			break
 		}
 
 		// Check for overflow.
